@@ -1,19 +1,19 @@
 /-
 Trace-acceptance driver for the task_timeout model (C16).  One line in -> one line out.
 
-  reset                         -> ok
-  ev enter L timed(0/1)         -> ok | disabled ...
-  ev fire L | ev istep L thrown|refused|none | ev exitOk L | ev exitOther L
-  ev raise O N RES              -> ok iff the pending interrupt is O, and unwinding N levels gives,
-                                   level by level, RES (I = same interrupt, T = TimeoutError, X = other)
-  obs L:in|out:timer:itask ...  -> obs <model's view of the same levels>
+  reset                           -> ok
+  ev T enter L timed(0/1)         -> ok | disabled ...          (T = task the level belongs to)
+  ev T fire L | ev T istep L thrown|refused|none | ev T exitOk L | ev T exitOther L
+  ev T raise O N RES              -> ok iff the pending interrupt of task T is O, and unwinding N levels
+                                     gives, level by level, RES (I = same interrupt, T = TimeoutError, X = other)
+  obs T L:in|out:timer:itask ...  -> obs T <model's view of the same levels of task T>
 -/
 import Asynkit.Model.Timeout
 
 open Asynkit.Timeout
 
 structure DSt where
-  s : State := init
+  ms : MState := minit
   dead : Bool := false
 
 def showTimer : Timer → String
@@ -54,18 +54,25 @@ def parseEvent (s : State) : List String → Option Event
 def stepLine (d : DSt) (line : String) : DSt × String :=
   match (line.trimAscii.toString.splitOn " ").filter (· != "") with
   | ["reset"] => ({}, "ok")
-  | "ev" :: rest =>
+  | "ev" :: t :: rest =>
     if d.dead then (d, "dead") else
-    match parseEvent d.s rest with
-    | none => ({ d with dead := true }, "rejected " ++ " ".intercalate rest)
-    | some e =>
-      match step d.s e with
-      | none => ({ d with dead := true }, "disabled " ++ " ".intercalate rest)
-      | some s' => ({ d with s := s' }, "ok")
-  | "obs" :: rest =>
+    match t.toNat? with
+    | none => ({ d with dead := true }, "bad-task")
+    | some t =>
+      match parseEvent (d.ms t) rest with
+      | none => ({ d with dead := true }, "rejected " ++ " ".intercalate rest)
+      | some e =>
+        match mstep d.ms t e with
+        | none => ({ d with dead := true }, "disabled " ++ " ".intercalate rest)
+        | some ms' => ({ d with ms := ms' }, "ok")
+  | "obs" :: t :: rest =>
     if d.dead then (d, "dead") else
-    let ids := rest.filterMap fun tok => (tok.splitOn ":").head?.bind String.toNat?
-    (d, if ids.isEmpty then "obs -" else "obs " ++ " ".intercalate (ids.map (showLevel d.s)))
+    match t.toNat? with
+    | none => (d, "bad-task")
+    | some t =>
+      let ids := rest.filterMap fun tok => (tok.splitOn ":").head?.bind String.toNat?
+      (d, if ids.isEmpty then s!"obs {t} -" else
+            s!"obs {t} " ++ " ".intercalate (ids.map (showLevel (d.ms t))))
   | _ => (d, "bad-op")
 
 partial def loop (h : IO.FS.Stream) (out : IO.FS.Stream) (d : DSt) : IO Unit := do
